@@ -10,6 +10,7 @@ package main
 
 import (
 	"bytes"
+	"fmt"
 	"strings"
 
 	"elaverif/harness/hx"
@@ -19,12 +20,38 @@ import (
 	"github.com/elastos/Elastos.ELA/core/types"
 )
 
+// emitOwn emits an op whose bytes are the REAL Serialize output of a generated value.  The marker
+// `own` (and, for transactions, the field summary of the value that was serialized) lets the oracle
+// demand that the real reader accepts exactly these bytes and gives the value back.
+func emitOwn(g *hx.Gen, s wire.Sample) {
+	if s.Want != "" {
+		g.Emit("%s %s own %s", s.Op, hx.Hex(s.Bytes), s.Want)
+	} else {
+		g.Emit("%s %s own", s.Op, hx.Hex(s.Bytes))
+	}
+}
+
 func gen(g *hx.Gen) {
 	r := g.R
+	// the var-int writer/reader and the var-bytes / var-string writers on every boundary value
+	for _, v := range wire.VarUintBoundaries {
+		g.Emit("varuint %d", v)
+	}
+	for i := 0; i < g.N(300, 3000); i++ {
+		g.Emit("varuint %d", r.U64()>>uint(r.Intn(64)))
+	}
+	for _, n := range append(append([]int{0, 1, 2}, wire.BoundaryLens...), wire.BigBoundaryLens...) {
+		g.Emit("vb %d", n)
+		g.Emit("vs %d", n)
+	}
+	// values whose var-int prefixed fields and element counts sit on the var-int boundaries
+	for _, s := range wire.GenBoundary(r.Fork(77), !g.Quick()) {
+		emitOwn(g, s)
+	}
 	n := g.N(2500, 40000)
 	for i := 0; i < n; i++ {
 		s := wire.GenSample(r.Fork(uint64(i)))
-		g.Emit("%s %s", s.Op, hx.Hex(s.Bytes))
+		emitOwn(g, s)
 		for k := 0; k < 2; k++ {
 			g.Emit("%s %s", s.Op, hx.Hex(wire.Mutate(r, s.Bytes)))
 		}
@@ -35,6 +62,63 @@ func gen(g *hx.Gen) {
 	}
 }
 
+// ownIndex returns the position of the `own` marker, -1 if absent.
+func ownIndex(t []string) int {
+	for i := 1; i < len(t); i++ {
+		if t[i] == "own" {
+			return i
+		}
+	}
+	return -1
+}
+
+// ownOracle: bytes written by the real Serialize from a generated value must be accepted completely
+// by the real reader, re-serialize to themselves, and (transactions) carry the fields of the value.
+func ownOracle(t []string, out string) *hx.Violation {
+	oi := ownIndex(t)
+	if oi < 0 || out == "uncovered" {
+		return nil
+	}
+	hexTok := t[oi-1]
+	f := strings.Fields(out)
+	if len(f) < 2 || f[0] != "ok" {
+		return &hx.Violation{Kind: "own-bytes-rejected", Detail: "the reader rejects bytes the writer produced from a well-formed value: " + out}
+	}
+	if f[1] != fmt.Sprint(len(hx.UnHex(hexTok))) {
+		return &hx.Violation{Kind: "own-bytes-not-consumed", Detail: "the reader consumed " + f[1] + " of " + fmt.Sprint(len(hx.UnHex(hexTok))) + " bytes the writer produced"}
+	}
+	switch t[0] {
+	case "dec":
+		if f[2] != hexTok {
+			return &hx.Violation{Kind: "own-bytes-not-roundtrip", Detail: "Serialize(Deserialize(Serialize(v))) differs from Serialize(v)"}
+		}
+	case "tx":
+		if f[len(f)-2] != hexTok {
+			return &hx.Violation{Kind: "own-bytes-not-roundtrip", Detail: "tx.Serialize(decode(tx.Serialize(v))) differs from tx.Serialize(v)"}
+		}
+		if want := strings.Join(t[oi+1:], " "); want != "" && strings.Join(f[2:10], " ") != want {
+			return &hx.Violation{Kind: "own-value-changed", Detail: "decoded fields " + strings.Join(f[2:10], " ") + " differ from the serialized value's " + want}
+		}
+	}
+	return nil
+}
+
+// primOracle judges the varuint / vb / vs ops: write n, read it back, one byte must remain.
+func primOracle(t []string, out string) *hx.Violation {
+	f := strings.Fields(out)
+	switch t[0] {
+	case "varuint":
+		if len(f) != 4 || f[2] != t[1] || f[3] != "1" {
+			return &hx.Violation{Kind: "varuint-roundtrip", Detail: "ReadVarUint(WriteVarUint(" + t[1] + ")) gave: " + out}
+		}
+	case "vb", "vs":
+		if len(f) != 5 || f[3] != t[1] || f[4] != "1" {
+			return &hx.Violation{Kind: "varbytes-roundtrip", Detail: "reading back " + t[1] + " written bytes gave: " + out}
+		}
+	}
+	return nil
+}
+
 // oracle: the implementation judged against the property statement only.
 //
 //	(1) re-encoding a decoded value gives bytes that decode (completely) to a value with the
@@ -43,6 +127,15 @@ func gen(g *hx.Gen) {
 //	(3) the re-encoding of a successfully decoded value is as long as what was consumed whenever
 //	    it is a prefix-faithful encoding (the consumed bytes re-decode to the same re-encoding).
 func oracle(t []string, out string) *hx.Violation {
+	if out == "panic" {
+		return &hx.Violation{Kind: "decode-panic", Detail: "decoder panicked: " + hx.LastPanic()}
+	}
+	if t[0] == "varuint" || t[0] == "vb" || t[0] == "vs" {
+		return primOracle(t, out)
+	}
+	if v := ownOracle(t, out); v != nil {
+		return v
+	}
 	if !strings.HasPrefix(out, "ok ") {
 		if out == "panic" {
 			return &hx.Violation{Kind: "decode-panic", Detail: "decoder panicked: " + hx.LastPanic()}
@@ -67,6 +160,7 @@ func oracle(t []string, out string) *hx.Violation {
 	case "tx":
 		reenc := hx.UnHex(f[len(f)-2])
 		r := bytes.NewReader(reenc)
+		_ = t
 		tx2, _, err := wire.DecodeTx(r)
 		if err != nil || tx2 == nil {
 			return &hx.Violation{Kind: "reencode-not-decodable", Detail: "tx.Serialize of a decoded tx is rejected by Deserialize"}
